@@ -9,17 +9,35 @@ import (
 	"net/url"
 )
 
-func c15Probe(B int) {
+func c15Probe(B int, caseVariants bool) {
 	h := newHandler(nil)
 	enabled := vBool("probeEnabled")
 	if enabled {
 		h.IsProbeRequest = IsKubernetesProbeRequest
 	}
-	req := &http.Request{Method: "GET", URL: &url.URL{Path: "/"}, Header: http.Header{}, Host: "example", RemoteAddr: "1.2.3.4:5"}
+	method := []string{"GET", "HEAD", "POST"}[vRange("method", 0, 2)]
+	req := &http.Request{Method: method, URL: &url.URL{Path: "/"}, Header: http.Header{}, Host: "example", RemoteAddr: "1.2.3.4:5"}
 	var ua string
 	lines := vRange("uaLines", 0, 2)
 	if lines >= 1 {
-		ua = vString("ua", vRange("uaLen", 0, B))
+		if caseVariants {
+			// every upper/lower-case spelling of the probe prefix, then one free ASCII byte
+			const pfx = "kube-probe/"
+			b := make([]byte, 0, len(pfx)+1)
+			for i := 0; i < len(pfx); i++ {
+				c := pfx[i]
+				if c >= 'a' && c <= 'z' {
+					c = vIteU8(vBool(vName("upper", i)), c-32, c)
+				}
+				b = append(b, c)
+			}
+			last := vU8("suffix")
+			vAssume(last < 0x80)
+			b = append(b, last)
+			ua = string(b)
+		} else {
+			ua = vString("ua", vRange("uaLen", 0, B))
+		}
 		req.Header["User-Agent"] = []string{ua}
 	}
 	if lines == 2 {
@@ -50,5 +68,8 @@ func c15Probe(B int) {
 	}
 }
 
-func VerifC15_probe_quick()    { c15Probe(13) }
-func VerifC15_probe_thorough() { c15Probe(24) }
+func VerifC15_probe_quick()    { c15Probe(13, false) }
+func VerifC15_probe_thorough() { c15Probe(24, false) }
+
+// Same obligation over all case variants of the probe prefix (2^10 spellings, symbolic).
+func VerifC15_probe_casevariants() { c15Probe(12, true) }
